@@ -11,10 +11,10 @@ TECH = "deterministic simulation with fault injection: seeded search over scenar
 
 CHECKS = {
     "C01": dict(engine="e2-crystal", cat="exploration", ref="DESIGN.md 5.C01",
-        text="Real optimiser histories on real hard-shape crystal states (all 7 groups, polygons, circle, trimers), chained stages with special-position writes and JSON restarts as injected faults; at every score() call that returns Some an exhaustive-lattice exact-geometry oracle looks for overlapping copies at any image distance. Evidence over the states visited, not a proof.",
+        text="Real optimiser histories on real hard-shape crystal states (all 7 groups, polygons, circle, trimers), chained stages with special-position writes and JSON restarts as injected faults; packings bisected down to contact and nudged by 1e-7..1e-3 (F-contact); at every score() call that returns Some an exhaustive-lattice exact-geometry oracle looks for overlapping copies at any image distance. Evidence over the states visited, not a proof.",
         note="trusts the harness's own SAT / disc-distance geometry and the state's cartesian_positions() as the placements (that they are the right placements is C04/C15)"),
     "C04": dict(engine="e2-crystal", cat="exploration", ref="DESIGN.md 5.C04",
-        text="At every state scored along real optimisation histories (drift, clamps, restarts; hard and LJ; chiral shapes) the set of placed shapes is checked for invariance under an independent table of the group's operations mapped to Cartesian space, and each operation is checked to be orthogonal for the current cell.",
+        text="At every state scored along real optimisation histories (drift, clamps, restarts; hard and LJ; chiral shapes) the set of placed shapes is checked for invariance under an independent table of the group's operations mapped to Cartesian space, and each operation is checked to be orthogonal for the current cell. Every 50th run executes the shipped binary (plain, over stale output files, or handed a valid --start-config saved for another group), loads the JSON it wrote and holds it to the table of the group named on the command line.",
         note="independent group table written from International Tables A inside the harness; tolerance 1e-9 relative to cell size"),
     "C05": dict(engine="e1-landscape + e2-crystal", cat="exploration", ref="DESIGN.md 5.C05",
         text="kt_start = 0 crossed with the whole configuration swarm (kt_finish, kt_ratio, 1..100 inner loops, step sizes, convergence) on scripted landscapes and real hard/LJ crystals: returned score >= input score, and no explanation-consistent history contains an accepted strictly-worse move.",
@@ -26,25 +26,25 @@ CHECKS = {
         text="Deterministic Metropolis clauses on every step of scripted histories (better => accepted, None => rejected, equal => accepted, kT=0 & worse => rejected) plus acceptance frequencies of exact-d downhill trials against exp(-d/kT) with Hoeffding bounds (false-alarm probability < 1e-12 per invocation).",
         note="temperature is held constant with kt_ratio = 0 (cooling factor 1) for the frequency clause"),
     "C08": dict(engine="e2-crystal", cat="exploration", ref="DESIGN.md 5.C08",
-        text="Chains of 1..4 real optimisation stages on all groups x shapes x potentials with clamp and restart faults between stages: at every stage boundary and every score() call parameters lie in the declared ranges, the cell stays in its family, the score is Some and finite; every group x shape starts valid.",
+        text="Chains of 1..4 real optimisation stages on all groups x shapes x potentials with clamp and restart faults between stages: at every stage boundary and every score() call parameters lie in the declared ranges, the cell stays in its family, the score is Some and finite, no parameter is NaN or infinite (checked before the state is handed to the real score()); every group x shape starts valid. 1 % of the scenarios use polygons of circumradius 1e-3 ('any shape of well-defined area'): open known finding F1.",
         note="ranges are taken from the property text, re-derived per stage from the values at the start of that stage"),
     "C09": dict(engine="e3-replicas (shuttle + sim-rayon)", cat="exploration", ref="DESIGN.md 5.C09",
         text="The unmodified src/main.rs replica pipeline runs on a simulated rayon whose workers are shuttle threads: output bytes are compared with the one-worker reference across seeded schedules, 1..16 workers, repeats and restarts; single-index delivery gives per-replica results; a vector-clock monitor on SharedValue accesses looks for unsynchronised cross-task access.",
         note="rayon is a stub (sim-rayon, patched in for the library as well); main.rs sees shuttle's std::sync/std::thread through a shim; schedules are sampled by shuttle's seeded random/PCT schedulers, not enumerated; every scenario runs in a fresh child process"),
     "C10": dict(engine="e3-replicas + e4-cliproc", cat="exploration", ref="DESIGN.md 5.C10",
-        text="Per-replica results obtained from the real pipeline through single-index delivery are compared with what the full run writes (max, prefix monotone in k, logged score = score of the written file) under varying reduction trees; the shipped binary is run over group x shape x potential x replications and its JSON labels/family/shape/copies compared with the request.",
+        text="Per-replica results obtained from the real pipeline through single-index delivery are compared with what the full run writes (max, prefix monotone in k, logged score = score of the written file) under varying reduction trees; the shipped binary is run over group x shape x potential x replications and its JSON labels/family/shape/copies compared with the request, also over stale output files and when handed a valid --start-config saved for another group.",
         note="sim-rayon stub for the in-process part; the process part uses the shipped binary with RAYON_NUM_THREADS=1"),
     "C11": dict(engine="e2-crystal + e3-replicas", cat="exploration", ref="DESIGN.md 5.C11, 12.5",
-        text="Crash/restart through the only durable state: at stage boundaries and mid-stage snapshots of real optimisation chains the state is serialised, dropped, deserialised and continued; scores, placements, re-serialisation and the continued optimisation must be bit-identical. The written SVG's <use> matrices must equal the Cartesian transforms and their 8 nearest images. A second part runs the real analyse_state under seeded schedules with pre-emption and short writes at its file operations, reads the written JSON back and requires the SVG written next to it to be byte-identical to the SVG regenerated from that JSON.",
+        text="Crash/restart through the only durable state: at stage boundaries and mid-stage snapshots of real optimisation chains the state is serialised, dropped, deserialised and continued; scores, placements, re-serialisation and the continued optimisation must be bit-identical. The written SVG's <use> matrices must equal the Cartesian transforms and their 8 nearest images. A second part runs the real analyse_state under seeded schedules with pre-emption and short writes at its file operations, reads the written JSON back and requires the SVG written next to it to be byte-identical to the SVG regenerated from that JSON; with a directory or a /dev/full symlink at one of the two output paths an execution that reports success must still have written the pair.",
         note="uses serde_json exactly as /repo configures it (the harness adds no serde_json features)"),
     "C18": dict(engine="e1-landscape", cat="exploration", ref="DESIGN.md 5.C18",
-        text="Per-inner-loop temperature inferred from acceptance frequencies of exact-d downhill trials on staircase landscapes (pooled over seeds, Hoeffding intervals): constancy within a loop, one geometric factor, (1-kt_ratio) or the factor reaching kt_finish within one cooling step, kT=0 stays 0.",
+        text="Per-inner-loop temperature inferred from acceptance frequencies of exact-d downhill trials on staircase landscapes (pooled over seeds, Hoeffding intervals): constancy within a loop, one geometric factor, (1-kt_ratio) or the factor reaching kt_finish within one cooling step, kT=0 stays 0; kt_start down to 1e-14; schedules of 2^32..2^40 loops observed through their first six.",
         note="statistical: each interval holds with probability 1-1e-15; sampling configurations, not all reals"),
     "C19": dict(engine="e1-landscape + e2-crystal", cat="exploration", ref="DESIGN.md 5.C19, 12.5",
-        text="Every proposal of hypothesis-tracked histories (rejection rates pinned to 0 %, 100 % and in between, up to 100 inner loops, ranges 1e-6..1e6) must differ from a possible pre-proposal state in <= 1 parameter by <= max_step_size*range/2; every 10th run tracks a chain of stages on a real crystal and compares each move with the declared range of the parameter it belongs to.",
+        text="Every proposal of hypothesis-tracked histories (rejection rates pinned to 0 %, 100 % and in between, scripted collapse-and-recovery streaks of up to 1100 rejections, up to 100 inner loops, ranges 1e-6..1e6) must differ from a possible pre-proposal state in <= 1 parameter by <= max_step_size*range/2; every 10th run tracks a chain of stages on a real crystal and compares each move with the declared range of the parameter it belongs to.",
         note="rounding allowance 1e-12 relative + 4 ulp"),
     "C20": dict(engine="e1-landscape + e4-cliproc", cat="fault_enumeration", ref="DESIGN.md 5.C20",
-        text="Degenerate run lengths (0, 1, non-multiples, inner > steps), all landscapes and temperatures under catch_unwind: no panic, proposal count within [steps - inner, steps], convergence twin-run prefix property; the shipped binary under argument and disk faults (ENOENT, ENOTDIR, EISDIR, ENOSPC) must exit 0 with both files or non-zero with an error message, never 101.",
+        text="Degenerate run lengths (0, 1, non-multiples, inner > steps), all landscapes and temperatures under catch_unwind: no panic, proposal count within [steps - inner, steps], convergence twin-run prefix property; inverted parameter ranges; 'run until converged' (steps up to 2^64-1 with a threshold every loop meets, executed in a process of its own with a capped address space: must equal the six-loop run; a dead or endless process is a violation); the shipped binary under argument and disk faults (ENOENT, ENOTDIR, EISDIR, ENOSPC) must exit 0 with both files or non-zero with an error message, never 101.",
         note="finite list of fault kinds crossed with a seeded swarm; disk faults injected through the file namespace (/dev/full symlinks, missing/regular-file parents)"),
 }
 
@@ -97,11 +97,11 @@ def main():
             {"name": "e1-landscape", "path": "sim/simcheck/src/e1", "serves_properties": ["C05", "C06", "C07", "C18", "C19", "C20"], "kind_free_text": "real optimiser on a scripted State (stub environment), hypothesis-tracked histories"},
             {"name": "e2-crystal", "path": "sim/simcheck/src/e2", "serves_properties": ["C01", "C04", "C05", "C06", "C08", "C11", "C19"], "kind_free_text": "real crystal states behind a monitoring wrapper; stage chains with clamp/special-position/restart faults"},
             {"name": "e3-replicas", "path": "sim/simrep", "serves_properties": ["C09", "C10", "C11"], "kind_free_text": "unmodified src/main.rs pipeline on a simulated rayon (shuttle threads) with shuttle std::sync/thread and a pre-empting, short-writing std::fs::File; seeded schedules; one fresh process per scenario"},
-            {"name": "e4-cliproc", "path": "sim/core/src/cliproc.rs", "serves_properties": ["C09", "C10", "C20"], "kind_free_text": "shipped binary under argument and file-namespace faults (ENOENT, ENOTDIR, EISDIR, ENOSPC, stale output files), -v flags, 1..16 real rayon threads"},
+            {"name": "e4-cliproc", "path": "sim/core/src/cliproc.rs", "serves_properties": ["C04", "C09", "C10", "C20"], "kind_free_text": "shipped binary under argument and file-namespace faults (ENOENT, ENOTDIR, EISDIR, ENOSPC, stale output files, a start configuration saved for another group, astronomically large --steps), -v flags, 1..16 real rayon threads, 4 GiB address space, 5 min time limit"},
         ],
         "checks": checks,
         "not_applicable": na,
-        "notes": "All checks: exit 0 = held on everything explored (KNOWN-FINDING lines possible), 1 = VIOLATION line with replay file, 2 = harness/build error. VERIF_SEED (default 20260917) decides every run. See DESIGN.md.",
+        "notes": "All checks: exit 0 = held on everything explored (KNOWN-FINDING lines possible), 1 = VIOLATION line with replay file, 2 = harness/build error. VERIF_SEED (default 20260917) decides every run. Known findings: /verif/known_findings.json (R1-R11 fixed in /repo by 'fix:' commits; one open finding, F1, on C08 - see DESIGN.md 13). Sensitivity: selftest/mutants.py (37 mutants) and seeded/ (84 independently written changes in 7 rounds, DESIGN.md 12). See DESIGN.md.",
     }
     with open(os.path.join(HERE, "MANIFEST.json"), "w") as f:
         json.dump(m, f, indent=1)
